@@ -41,13 +41,13 @@ def run_mutation(pid, mod, m, idx):
         os.unlink(var)
         return "broken", str(e)[:300]
     os.unlink(var)
-    if chk.broken:
-        # floors / vanished anchors: the mutation was noticed as analysis-broken
-        return ("detected-as-broken" if m.get("expect") == "BROKEN" else "broken"), "; ".join(chk.broken)[:300]
     keys = [o["key"] for o in chk.obl if o["status"] == "violation"]
     hit = [k for k in keys if m["expect"] in k]
     if hit:
-        return "killed", hit[0]
+        return "killed", hit[0]     # a reported violation stands even if another rule could not be applied (see Check.finish)
+    if chk.broken:
+        # floors / vanished anchors / unrecognised code shape: the mutation was noticed as analysis-broken
+        return ("detected-as-broken" if m.get("expect") == "BROKEN" else "broken"), "; ".join(chk.broken)[:300]
     if keys:
         return "other-violation", keys[0]
     return "survived", ""
